@@ -21,6 +21,9 @@ def corpus(fmt, r, n):
     """n valid ASCII documents of the format (bytes)."""
     from harness import docs
     out = [_cli.serialise(fmt, _cli.DATA_A, "A")]
+    if fmt in ("json", "json5", "yaml"):
+        # one document with 2-, 3- and 4-byte characters: its truncations inside a character are not valid UTF-8
+        out.append('{"k\u00e9": "caf\u00e9 \u65e5\u672c", "x": [1, "\U0001F600"]}'.encode("utf-8"))
     while len(out) < n:
         d = docs.random_doc(r, depth=2, width=3)
         if not isinstance(d, (dict, list)) or not d:
@@ -64,7 +67,8 @@ def corruptions(fmt, doc: bytes, r, budget):
     # a raw control character / a byte that can never start a UTF-8 sequence, at a few positions
     for k in sorted({0, len(text) // 3, len(text) // 2, max(len(text) - 2, 0), len(text)}):
         for name, b in (("insert-NUL", b"\x00"), ("insert-control-01", b"\x01"), ("insert-ESC", b"\x1b"),
-                        ("insert-DEL", b"\x7f"), ("insert-C1-control", "\u0085".encode()), ("insert-BOM-inside", "\ufeff".encode())):
+                        ("insert-DEL", b"\x7f"), ("insert-C1-control", "\u0085".encode()), ("insert-BOM-inside", "\ufeff".encode()),
+                        ("insert-byte-FF", b"\xff"), ("insert-lone-lead-byte", b"\xc3"), ("insert-lone-continuation", b"\x80")):
             cands.append(("%s@%d" % (name, k), text[:k] + b + text[k:]))
     if fmt in ("xml", "html", "plist"):
         import re
@@ -80,7 +84,7 @@ def corruptions(fmt, doc: bytes, r, budget):
 def run():
     chk = Check("C20", "fault_enumeration")
     t = tier()
-    ndocs, budget = (3, 260) if t == "quick" else (25, 0)
+    ndocs, budget = (4, 260) if t == "quick" else (25, 0)
     r = rng("c20")
     mats = _cli.Materials()
     jobs = []
@@ -126,14 +130,17 @@ def run():
     _cli.model_check(chk)
     chk.extra["corruptions_generated"] = generated
     chk.extra["corruptions_rejected_by_reference_parser"] = kept
-    chk.rule = ("faults = for each format in %s and each of %d valid ASCII documents: truncation at every byte offset, "
+    chk.rule = ("faults = for each format in %s and each of %d valid documents (ASCII; for JSON / JSON5 / YAML also one with 2-, 3- "
+                "and 4-byte characters): truncation at every byte offset, raw control characters and bytes that are not UTF-8 at "
+                "five positions, "
                 "deletion and duplication of every delimiter occurrence, every closing bracket replaced by an opening one, "
                 "adjacent different closing tags swapped%s; kept only if the format's reference parser (json, json5, "
                 "yaml, ElementTree, plistlib) rejects the text; each used as first and as second file; distinct by "
                 "(format, corrupted text, position); all kept faults are non-trivial"
                 % (FORMATS, ndocs, " (sampled to %d per document)" % budget if budget else ""))
     chk.assumptions = ["validity is decided by the reference parser of each format",
-                       "files that are invalid only as byte encodings are outside the statement and skipped",
+                       "files that are not valid UTF-8 are malformed for JSON and JSON5 (RFC 8259 section 8.1) and undecided (skipped) for "
+                       "the formats that declare or sniff their encoding (YAML, XML, HTML, plist)",
                        "the command runs in-process (main(argv)) with stdout/stderr captured"]
     return chk.finish()
 
